@@ -198,6 +198,12 @@ def run(tier="quick", only_key=None):
                             it.ctx.decide = forced
                             try:
                                 other = catalog.stepper_forms(it, cls, D, 0, **fl)
+                            except RepoRaise as r_:
+                                if r_.exc_name != "ValueError":
+                                    raise
+                                # a range check that rejects one side with ValueError is input validation, not dispatch
+                                ck.ok("special-value", f"{cls.qual}#value-range#{rcond},D={D},{fl}#validation")
+                                continue
                             finally:
                                 it.ctx.decide = base_decide
                             from vf.harness import _same
